@@ -87,6 +87,18 @@ def run(ctx, proofs_ok):
                 vlib.record_violation(ctx, "replica-differs", {"ops": geo[:i + 4], "impl": g[:i + 4], "model": [], "stream": "GEOADD closed loop (implementation only)",
                                                                "explain": "after the primary's records for this command went through Encode/DecodeOp and ApplyPatch, the replica's logical keyspace differs from the primary's (last and third-last line)"})
                 return
+    # watcher bookkeeping: additional watchers are added and removed (also removed twice) while the first one
+    # must keep receiving every record, and a replica fed by it stays equal
+    # a command after every change of the watcher set, so that every count of (live + removed-again) watchers
+    # a buggy bookkeeping might pass through is observed
+    steps = ["watchx", "api Set 6b31 7631 0", "unwatchx 1", "api Set 6b32 7632 0", "unwatchx 1", "api RPush 6c31 61 62", "unwatchx 1", "api SAdd 7431 61",
+             "watchx", "watchx", "api HSet 6831 66 76", "unwatchx 2", "unwatchx 2", "api Incr 6b33", "unwatchx 3", "api Del 6b31", "unwatchx 3", "unwatchx 2", "api ZAdd 7a31 61 3ff0000000000000",
+             "watchx", "unwatchx 4", "api Append 6b32 7a", "unwatchx 4", "api LPop 6c31 1"]
+    with_feed = ["open a mem", "watch 2a"] + [x for st in steps for x in ([st, "feed"] if st.startswith("api ") else [st])]
+    closed = ["open b mem", "open a mem", "watch 2a"] + steps + ["replicate b", "ldump", "inst b", "ldump", "inst a"]
+    for tag, ops in (("book1", with_feed), ("book2", closed)):
+        if vlib.correspond_stream(ctx, hft, ops, tag, "additional watchers come and go (removed once, twice, three times): the first watcher keeps receiving every record", shrink=False):
+            return
     # pattern filtering: a narrow watcher next to the `*` watcher
     pats_pool = [["t1"], ["t?"], ["t2", "l1"], ["*1"], ["[st]*"], ["z3", "t3"], ["w"], ["l2"], ["s*"], ["z1"]]
     for i in range(6 if q else 40):
